@@ -762,6 +762,12 @@ def check_phase(ctx, repo):
                     ctx.check(same_series(repo, c, fn, k, REF), "R3", tag + ":same-series",
                               "phase reference and seasonal_ are taken from the same series",
                               "%s takes the phase reference and seasonal_ from different series" % tag, loc)
+                if "seasonal_" in may:
+                    ctx.check(REF in must, "R3", tag + ":reference", "the phase reference is re-established on every path",
+                              "%s re-estimates seasonal_ but stores the phase reference self.%s only on some paths (e.g. a store guarded by the "
+                              "attribute's own previous value): history fit(z1); fit(z2) keeps the reference of z1 while seasonal_ belongs to z2, "
+                              "so the phase is wrong unless z2 starts a multiple of sp after z1" % (tag, REF), loc,
+                              witness={"may_write": sorted(may), "must_write": sorted(must)})
             elif "seasonal_" in may:
                 ctx.violation("R3", tag + ":pair", "%s re-estimates seasonal_ without moving the phase reference self.%s" % (tag, REF), loc)
         # state derived from the phase pair (caches) is invalidated wherever the pair is re-estimated
@@ -1079,6 +1085,29 @@ def check_alignment(ctx, repo):
         else:
             ctx.undecided("R4", tag + ":shift", "shift `%s` not interpretable: %s" % (ast.unparse(shift)[:80], e), loc)
         return
+    # the offset is counted in steps of the training frequency (that is what sp and seasonal_ refer to): the unit handed to
+    # _get_duration comes from the reference index, or is left to _get_duration (None: taken from the time point itself)
+    for dc in [n_ for n_ in ast.walk(shift) if isinstance(n_, ast.Call)]:
+        sym = repo.resolve_expr(mod, dc.func)
+        if sym is None or sym.kind != "func" or sym.dotted != "sktime.utils.datetime._get_duration":
+            continue
+        b = astq.bind_call(sym.target, dc)
+        u = b.get("unit") if b else None
+        verdict, why = None, "unit `%s` not interpretable" % (ast.unparse(u) if u is not None else None)
+        if u is None or (isinstance(u, ast.Constant) and u.value is None):
+            verdict, why = True, "unit left to _get_duration"
+        elif isinstance(u, ast.Call) and len(u.args) == 1:
+            fs = repo.resolve_expr(mod, u.func)
+            if fs is not None and fs.dotted == "sktime.utils.datetime._get_freq":
+                src_ = astq.canon(u.args[0])
+                if src_ == "self.%s" % REF:
+                    verdict, why = True, "unit of the training index self.%s" % REF
+                elif src_ in ("%s.index" % y, y):
+                    verdict, why = False, ("the unit is taken from the transformed series `%s`, not from the training index: a stretch cut out of "
+                                           "the training series by a mask / positions has no freq (unit None -> ValueError in the coercion), and a "
+                                           "series with another frequency is counted in its own steps although sp and seasonal_ are in training steps"
+                                           % ast.unparse(u.args[0]))
+        ctx.check(verdict, "R4", tag + ":unit", why, "%s: %s" % (tag, why), loc)
     want = -(Lin.sym("first(y)") - Lin.sym("first(train)"))
     # np.roll reduces any integer shift modulo len(seasonal_) = sp itself: no reduction, or reduction modulo sp, are both fine
     ctx.check(s.mod in (None, "self.sp"), "R4", tag + ":modulus", "shift is reduced modulo self.sp (or left to np.roll)",
@@ -1651,6 +1680,6 @@ def run(ctx):
     ctx.floor("R1", 32)  # 8 pairs x (signature, validation, auxiliary, operator) + pipeline order
     ctx.floor("R2", 7)   # Cosine, Detrender, Deseasonalizer, ConditionalDeseasonalizer, TabularToSeriesAdaptor, BoxCox, Log
     ctx.floor("R3", 6)   # fit / fit_transform / update of both deseasonalizers (+ same-series of the two fits)
-    ctx.floor("R4", 8)   # source, length, modulus, shift + three estimators of seasonal_
+    ctx.floor("R4", 9)   # source, length, modulus, shift + three estimators of seasonal_
     ctx.floor("R5", 4)   # (entry point, series, access kind) groups over 17 subscripts of user series  # 17 subscripts of user series with position / label provenance
     ctx.floor("R6", 3)   # two branches of the default + ColumnTransformer override
